@@ -133,4 +133,245 @@ theorem K07c_witness :
 /-- the literals of `StructParser::should_include` (what counts as a serde type), re-read from the source on this run -/
 theorem C07_source_table_derive : Exp.litsOf "should_include" = Exp.shouldInclude := by decide
 
+
+/-! ## completeness of the worklist closure -/
+
+def refsOfS (s : SInfo) : List Str := s.fields.flatMap fun f => customs (tsOfStr f.rustType)
+
+def Closed (all : List SInfo) (R : List Str) : Prop :=
+  ∀ x ∈ R, ∀ s, findStruct all x = some s → ∀ y ∈ refsOfS s, (findStruct all y).isSome = true → y ∈ R
+
+def Inv (all : List SInfo) (todo seen : List Str) : Prop :=
+  ∀ x ∈ seen, x ∉ todo → ∀ s, findStruct all x = some s → ∀ y ∈ refsOfS s, (findStruct all y).isSome = true → y ∈ seen
+
+/-- struct names not yet seen -/
+def unseen (all : List SInfo) (seen : List Str) : List Str :=
+  ((all.map (·.name)).eraseDups).filter fun n => !seen.contains n
+
+theorem filter_sub_len {A B : List Str} (hA : A.Nodup) (hB : B.Nodup) (hsub : ∀ b ∈ B, b ∈ A) :
+    (A.filter fun x => !B.contains x).length + B.length ≤ A.length := by
+  induction A generalizing B with
+  | nil =>
+    cases B with
+    | nil => simp
+    | cons b _ => exact absurd (hsub b (by simp)) (by simp)
+  | cons a A' ih =>
+    have hA' := (List.nodup_cons.mp hA)
+    by_cases ha : a ∈ B
+    · have hB' : (B.erase a).Nodup := hB.erase a
+      have hsub' : ∀ b ∈ B.erase a, b ∈ A' := by
+        intro b hb
+        have hbB := List.mem_of_mem_erase hb
+        have hne : b ≠ a := by
+          intro e; subst e
+          exact (List.Nodup.not_mem_erase hB) hb
+        rcases List.mem_cons.mp (hsub b hbB) with h | h
+        · exact absurd h hne
+        · exact h
+      have e : (A'.filter fun x => !B.contains x) = (A'.filter fun x => !(B.erase a).contains x) := by
+        apply List.filter_congr
+        intro x hx
+        have hxa : x ≠ a := fun e => hA'.1 (e ▸ hx)
+        simp [List.mem_erase_of_ne hxa]
+      have hlen : B.length = (B.erase a).length + 1 := by
+        rw [List.length_erase_of_mem ha]
+        have : 0 < B.length := List.length_pos_of_mem ha
+        omega
+      have := ih hA'.2 hB' hsub'
+      have hf : (List.filter (fun x => !B.contains x) (a :: A')) = List.filter (fun x => !B.contains x) A' := by
+        simp [List.filter_cons, ha]
+      rw [hf, e, hlen]
+      simp only [List.length_cons]
+      omega
+    · have hsub' : ∀ b ∈ B, b ∈ A' := by
+        intro b hb
+        rcases List.mem_cons.mp (hsub b hb) with h | h
+        · exact absurd (h ▸ hb) ha
+        · exact h
+      have := ih hA'.2 hB hsub'
+      have hf : (List.filter (fun x => !B.contains x) (a :: A')) = a :: List.filter (fun x => !B.contains x) A' := by
+        simp [List.filter_cons, ha]
+      rw [hf]
+      simp only [List.length_cons]
+      omega
+
+theorem unseen_nodup (all : List SInfo) (seen : List Str) : (unseen all seen).Nodup :=
+  (nodup_eraseDups _).filter _
+
+theorem findStruct_mem_names {all : List SInfo} {y : Str} (h : (findStruct all y).isSome = true) :
+    y ∈ (all.map (·.name)).eraseDups := by
+  apply List.mem_eraseDups.mpr
+  cases hf : findStruct all y with
+  | none => simp [hf] at h
+  | some s =>
+    have hm := List.mem_of_find?_eq_some hf
+    have hn : s.name = y := by simpa using List.find?_some hf
+    exact List.mem_map.mpr ⟨s, hm, hn⟩
+
+/-- pushing `fresh` (distinct unseen struct names) shrinks the unseen set by at least `|fresh|` -/
+theorem unseen_shrinks (all : List SInfo) (seen fresh : List Str) (hn : fresh.Nodup)
+    (hf : ∀ y ∈ fresh, y ∉ seen ∧ (findStruct all y).isSome = true) :
+    (unseen all (seen ++ fresh)).length + fresh.length ≤ (unseen all seen).length := by
+  have e : unseen all (seen ++ fresh) = (unseen all seen).filter fun x => !fresh.contains x := by
+    unfold unseen
+    rw [List.filter_filter]
+    apply List.filter_congr
+    intro x _
+    simp [List.mem_append, not_or, Bool.and_comm]
+  rw [e]
+  apply filter_sub_len (unseen_nodup all seen) hn
+  intro b hb
+  have := hf b hb
+  unfold unseen
+  apply List.mem_filter.mpr
+  exact ⟨findStruct_mem_names this.2, by simpa using this.1⟩
+
+/-- **completeness of the worklist**: with enough fuel the result is closed under "field type of a known struct" -/
+theorem nested_closed (all : List SInfo) : ∀ (fuel : Nat) (todo seen : List Str),
+    todo.length + (unseen all seen).length ≤ fuel → Inv all todo seen → Closed all (nested all fuel todo seen)
+  | 0, todo, seen, hm, hinv => by
+    have : todo = [] := by
+      cases todo with
+      | nil => rfl
+      | cons _ _ => simp at hm
+    subst this
+    simp only [nested]
+    intro x hx s hs y hy hys
+    exact hinv x hx (by simp) s hs y hy hys
+  | _+1, [], seen, _, hinv => by
+    simp only [nested]
+    intro x hx s hs y hy hys
+    exact hinv x hx (by simp) s hs y hy hys
+  | fuel+1, n :: todo, seen, hm, hinv => by
+    unfold nested
+    split
+    · next hnone =>
+      apply nested_closed all fuel todo seen (by simp at hm; omega)
+      intro x hx hxt s hs y hy hys
+      by_cases hxn : x = n
+      · subst hxn; rw [hnone] at hs; exact absurd hs (by simp)
+      · exact hinv x hx (by simp [hxn, hxt]) s hs y hy hys
+    · next s hsome =>
+      simp only
+      -- the fresh names
+      generalize hfr : ((s.fields.flatMap fun f => customs (tsOfStr f.rustType)).eraseDups.filter
+          fun r => !seen.contains r && (findStruct all r).isSome).eraseDups = fresh
+      have hfn : fresh.Nodup := by rw [← hfr]; exact nodup_eraseDups _
+      have hfp : ∀ y ∈ fresh, y ∉ seen ∧ (findStruct all y).isSome = true := by
+        intro y hy
+        rw [← hfr] at hy
+        have h1 := (List.mem_filter.mp (List.mem_eraseDups.mp hy)).2
+        simpa using h1
+      have hfm : ∀ y ∈ refsOfS s, (findStruct all y).isSome = true → y ∈ seen ∨ y ∈ fresh := by
+        intro y hy hys
+        by_cases hseen : y ∈ seen
+        · exact .inl hseen
+        · refine .inr ?_
+          rw [← hfr]
+          apply List.mem_eraseDups.mpr
+          apply List.mem_filter.mpr
+          exact ⟨List.mem_eraseDups.mpr hy, by simp [hseen, hys]⟩
+      have hsh := unseen_shrinks all seen fresh hfn hfp
+      apply nested_closed all fuel (fresh ++ todo) (seen ++ fresh)
+      · simp at hm ⊢; omega
+      · intro x hx hxt s' hs' y hy hys
+        have hxf : x ∉ fresh := fun h => hxt (List.mem_append_left _ h)
+        have hxtodo : x ∉ todo := fun h => hxt (List.mem_append_right _ h)
+        have hxs : x ∈ seen := by
+          rcases List.mem_append.mp hx with h | h
+          · exact h
+          · exact absurd h hxf
+        by_cases hxn : x = n
+        · subst hxn
+          rw [hsome] at hs'
+          cases hs'
+          rcases hfm y hy hys with h | h
+          · exact List.mem_append_left _ h
+          · exact List.mem_append_right _ h
+        · exact List.mem_append_left _ (hinv x hxs (by simp [hxn, hxtodo]) s' hs' y hy hys)
+
+theorem eraseDups_length_le : ∀ (l : List Str), l.eraseDups.length ≤ l.length
+  | [] => by simp
+  | a :: l => by
+    rw [List.eraseDups_cons]
+    have := eraseDups_length_le (l.filter fun b => !b == a)
+    have h2 := List.length_filter_le (fun b => !b == a) l
+    simp only [List.length_cons]
+    omega
+termination_by l => l.length
+decreasing_by
+  simp only [List.length_cons]
+  have := List.length_filter_le (fun b => !b == a) l
+  omega
+
+theorem unseen_le (all : List SInfo) (seen : List Str) : (unseen all seen).length ≤ all.length := by
+  unfold unseen
+  calc _ ≤ ((all.map (·.name)).eraseDups).length := List.length_filter_le _ _
+    _ ≤ (all.map (·.name)).length := eraseDups_length_le _
+    _ = all.length := by simp
+
+/-- the closure started from `seeds` (as in `usedNames`) is closed and contains the seeds -/
+theorem nested_from_seeds_closed (all : List SInfo) (seeds : List Str) :
+    Closed all (nested all (all.length * (all.length + 1) + seeds.length + 1) seeds seeds) := by
+  apply nested_closed
+  · have := unseen_le all seeds
+    have : all.length ≤ all.length * (all.length + 1) := by
+      cases all.length with
+      | zero => simp
+      | succ k => exact Nat.le_mul_of_pos_right _ (by omega)
+    omega
+  · intro x hx hxt; exact absurd hx hxt
+
+theorem reach_split (all : List SInfo) (A B : List Str) {x : Str} (h : Reach all (A ++ B) x) :
+    Reach all A x ∨ Reach all B x := by
+  induction h with
+  | seed hx =>
+    rcases List.mem_append.mp hx with h | h
+    · exact .inl (.seed h)
+    · exact .inr (.seed h)
+  | field s _ hf hy ih =>
+    rcases ih with h | h
+    · exact .inl (.field s h hf hy)
+    · exact .inr (.field s h hf hy)
+
+theorem reach_in_closed (all : List SInfo) (S R : List Str) (hc : Closed all R) (hs : ∀ x ∈ S, x ∈ R) {x : Str}
+    (h : Reach all S x) (hd : (findStruct all x).isSome = true) : x ∈ R := by
+  induction h with
+  | seed hx => exact hs _ hx
+  | field s _ hf hy ih =>
+    have hx := ih (by simp [hf])
+    exact hc _ hx s hf _ hy hd
+
+/-- **C07 (completeness half)**: every discovered serde type that is reachable from the public surface through
+    field types is declared — the worklist closure with the fuel the generator's model uses is complete -/
+theorem C07_reachable_declared (a : Analysis) (n : Str) (hr : Reach a.structs (seeds a) n)
+    (hd : (findStruct a.structs n).isSome = true) : n ∈ usedNames a := by
+  unfold usedNames
+  simp only
+  apply List.mem_eraseDups.mpr
+  apply List.mem_filter.mpr
+  refine ⟨?_, hd⟩
+  unfold seeds at hr
+  rcases reach_split _ _ _ hr with h | h
+  · apply List.mem_append_left
+    refine reach_in_closed a.structs _ _ (nested_from_seeds_closed a.structs _) ?_ h hd
+    intro x hx
+    exact nested_mono _ _ _ _ _ (List.mem_eraseDups.mpr hx)
+  · apply List.mem_append_right
+    refine reach_in_closed a.structs _ _ (nested_from_seeds_closed a.structs _) ?_ h hd
+    intro x hx
+    exact nested_mono _ _ _ _ _ (List.mem_eraseDups.mpr hx)
+
+/-- **C07**: declared = reachable ∩ discovered serde types (model level) -/
+theorem C07_declared_iff (a : Analysis) (n : Str) :
+    n ∈ usedNames a ↔ (Reach a.structs (seeds a) n ∧ (findStruct a.structs n).isSome = true) := by
+  constructor
+  · intro h
+    refine ⟨C07_declared_reachable a n h, ?_⟩
+    unfold usedNames at h
+    exact (List.mem_filter.mp (List.mem_eraseDups.mp h)).2
+  · intro ⟨hr, hd⟩; exact C07_reachable_declared a n hr hd
+
+
+
 end TG.C07
